@@ -1517,6 +1517,8 @@ class Session:
                 ex = {"stmt": v["stmt_class"]}
                 if v.get("attr"):
                     ex["attr"] = v["attr"]
+                if v.get("exc"):
+                    ex["exc"] = v["exc"]
                 self.violate(
                     "C06", v["sig"], f"after {name} (hop {hop}): {v['detail']} [cursor path {v['path']}]", name, ex,
                 )
